@@ -54,6 +54,13 @@ def plan(tier, seed):
                 P.add("loop", alg=a, mi=mi, aseed=int(rng.integers(1 << 30)))
             for r in range(1 if quick else 8):
                 P.add("interleave", alg=a, mi=mi, aseed=int(rng.integers(1 << 30)))
+    # accelerated proximal gradient with a box and a minimiser inside / on part of the
+    # boundary, conservative step, long budget: the momentum overshoot can be clipped on all
+    # coordinates in consecutive updates, so x stalls exactly while the extrapolated point
+    # still differs from it - a stop there is not a fixed point
+    for r in range(240 if quick else 3000):
+        P.add("fista-stall", n=int(pick(rng, [1, 1, 2, 2, 3])), aseed=int(rng.integers(1 << 30)),
+              frac=float(pick(rng, [0.2, 0.5, 1.0])), mi=int(pick(rng, [300, 1000])))
     for a in APPS:
         for mi in ([0, 1, 7] if quick else MAXITERS):
             if a == "EspiritCalib" and mi == 0:
@@ -476,6 +483,45 @@ def run_power(case):
     return held(sig, {"updates": len(ests)}, len(ests), n >= 2)
 
 
+def run_fista_stall(case):
+    import sigpy as sp
+    rng = np.random.default_rng(case["aseed"])
+    n, mi = case["n"], case["mi"]
+    M = crandn(rng, [n + 1, n], np.float64)
+    xin = rng.uniform(-1.2, 1.2, n)                 # unconstrained minimiser, near the box
+    y = M @ xin
+    L = float(np.linalg.eigvalsh(M.T @ M)[-1])
+    x = np.where(rng.random(n) < 0.5, -1.0, 1.0) * rng.uniform(0.5, 1.0, n)
+    alg = sp.alg.GradientMethod(lambda v: M.T @ (M @ v - y), x, case["frac"] / L,
+                                proxg=sp.prox.BoxConstraint([n], -1.0, 1.0), accelerate=True,
+                                max_iter=mi, tol=0)
+    sig = "fista-stall|n%d|%s|mi%d" % (n, case["frac"], mi)
+    k = 0
+    with alg_mon.budget(extra=3):
+        while not alg.done():
+            alg.update()
+            k += 1
+    obs = {"updates": k, "early": int(k < mi)}
+    tags = []
+    if k < mi:
+        tags.append("early-stop:fista-box")
+        s0 = [x.copy()]
+        for extra in range(2):
+            alg.update()
+            ch, d = changed(s0, [x])
+            if ch:
+                return violated(sig, "accelerated GradientMethod with a box stopped after %d of "
+                                "max_iter=%d updates with tol=0, but further update %d moves x "
+                                "by %.3g (x had stalled while the extrapolated point had not)"
+                                % (k, mi, extra + 1, d), dict(case),
+                                mech="early-stop:GradientMethod-acc-box", obs=obs)
+    r = held(sig + ("|early" if k < mi else ""), obs, k + 1, True)
+    r["tags"] = tags
+    return r
+
+
 def run_case(case):
+    if case["gen"] == "fista-stall":
+        return run_fista_stall(case)
     return {"loop": run_loop, "interleave": run_interleave, "app": run_app,
             "power": run_power}[case["gen"]](case)
